@@ -26,9 +26,8 @@ Thin(W) == IF PerBase = 0 \/ ~Final(W) \/ Cardinality(W) <= PerBase THEN W ELSE 
 
 Init == \E b \in BaseSet : phase = b[1] /\ expr = b[2]
 Wrap == phase \notin {"seq", "pair"} /\ \E w \in Thin(WrapsOf(phase, expr)) : phase' = w[1] /\ expr' = w[2]
-\* (intermediate expressions of a two-round universe print a marker, so that the orchestrator can tell that no line was lost)
-Emit == IF phase \in {"seq", "pair"} THEN PrintT(ToJson(CaseOf(phase, expr)))
-        ELSE phase \in {"pick2", "pick2-pair", "pick2-mix"} => PrintT(ToJson([t |-> "mid"]))
+\* (every expression that is not complete yet prints a marker, so that the orchestrator can tell that no line was lost)
+Emit == IF phase \in {"seq", "pair"} THEN PrintT(ToJson(CaseOf(phase, expr))) ELSE PrintT(ToJson([t |-> "mid"]))
 
 TblLo == -3
 TblN == 16
